@@ -179,6 +179,30 @@ def check_property(prop, tier, a):
     if native_h is not None and 'crash' in native_h:
         checker_errors.append('native harness: ' + native_h['crash'] + ' ' + native_h.get('stderr', '')[-800:])
 
+    # structural obligations (static analyses over the ast of /repo declared next to the contracts)
+    structural = []
+    from pyvc import modinfo as _mi
+    for m in contract_modules():
+        mod = sys.modules.get(m)
+        for sprop, sname, fn in getattr(mod, 'STRUCTURAL', []):
+            if sprop != prop:
+                continue
+            try:
+                obs = fn(_mi)
+            except _mi.TargetMissing as e:
+                obs = []
+                checker_errors.append(f'structural check {sname}: target missing ({e})') if False else None
+            except Exception as e:
+                obs = []
+                checker_errors.append(f'structural check {sname} crashed: {type(e).__name__}: {e}')
+            for o in obs:
+                o.setdefault('seconds', 0.0)
+                o['tier'] = 'T1'
+                o['backend'] = 'static'
+                structural.append(o)
+    if structural:
+        results.append({'key': 'structural', 'obligations': structural, 'unsupported': [], 'errors': [], 'paths': 0, 'cases': 0,
+                        'solver_time': 0.0, 'wall': 0.0, 'target': None, 'inlined': [], 'used_contracts': [], 'used_builtins': [], 'missing': None})
     agg = aggregate(results)
     t1 = [o for o in agg.values() if o['tier'] == 'T1']
     t2 = [o for o in agg.values() if o['tier'] == 'T2']
@@ -193,7 +217,8 @@ def check_property(prop, tier, a):
     violations = []      # dicts: fingerprint, replay record
     if failed:
         recs = [{'property': prop, 'kind': 'obligation', 'contract': o['contract'], 'obligation': o['oid'],
-                 'model': o['witness'].get('model')} for o in failed]
+                 'model': o['witness'].get('model')} if o['contract'] != 'structural' else
+                {'property': prop, 'kind': 'structural', 'contract': 'structural', 'obligation': o['oid'], 'model': None} for o in failed]
         rr = run_native(['replay'], {'records': recs})
         reps = rr.get('results', [{'status': 'not-reproduced', 'detail': rr.get('crash')}] * len(recs))
         for o, rec, rep in zip(failed, recs, reps):
@@ -363,8 +388,15 @@ def check_property(prop, tier, a):
             print('  undecided:', u)
     for e in checker_errors:
         print('CHECKER-ERROR', e[:600])
+    shown = 0
     for l in out_lines:
+        if l.startswith('VIOLATION') or l.startswith('  #'):
+            shown += 1
+            if shown > 24:
+                continue
         print(l)
+    if shown > 24:
+        print(f'... {(shown - 24) // 2} more VIOLATION lines suppressed (all replay files are written under replays/{prop}/)')
     return exit_code
 
 
